@@ -198,8 +198,13 @@ func (c *Ctx) frameObligations(st *State, fr *Frame, pos token.Pos) {
 			for _, fi := range fis[:len(fis)-1] {
 				ref = c.loadField(fr.entry, ref, fi)
 			}
-			k := fis[len(fis)-1].Key
-			allowed[k] = append(allowed[k], ref)
+			last := fis[len(fis)-1]
+			if isRepoStruct(last.GoT) {
+				// a struct-typed field: all fields of the embedded object may change
+				c.allowSubObject(fr.entry, allowed, c.loadField(fr.entry, ref, last), last.GoT, 0)
+			} else {
+				allowed[last.Key] = append(allowed[last.Key], ref)
+			}
 		case EIdent:
 			if e.Name == "everything" {
 				return
@@ -318,4 +323,19 @@ func (v *Verifier) chanInvs(fr *Frame) []chanInvDef {
 		f = f.Parent()
 	}
 	return out
+}
+
+func (c *Ctx) allowSubObject(st *State, allowed map[string][]Term, ref Term, t types.Type, depth int) {
+	s, owner := structOf(t)
+	if s == nil || depth > 3 {
+		return
+	}
+	for i := 0; i < s.NumFields(); i++ {
+		fi := c.fieldByIndex(owner, i)
+		if isRepoStruct(fi.GoT) {
+			c.allowSubObject(st, allowed, c.loadField(st, ref, fi), fi.GoT, depth+1)
+			continue
+		}
+		allowed[fi.Key] = append(allowed[fi.Key], ref)
+	}
 }
